@@ -12,8 +12,8 @@ from vlib.refs import traceref as R
 
 FUNCS = ['legendre', 'chebyshev', 'poly', 'chebyshev_split']
 ALIAS = {'legendre': 'flegendre', 'chebyshev': 'fchebyshev', 'poly': 'fpoly', 'chebyshev_split': 'fchebyshev_split'}
-DT = {'f8': np.float64, 'f4': np.float32}
-EPS = {'f8': R.EPS64, 'f4': R.EPS32}
+DT = {'f8': np.float64, 'f4': np.float32, 'f2': np.float16}
+EPS = {'f8': R.EPS64, 'f4': R.EPS32, 'f2': float(np.finfo(np.float16).eps)}
 K_COEFF = {'f8': 2000.0, 'f4': 200.0}           # coefficient tolerance = K * eps * cond^2 * scale (observed <= 12 / 1.1)
 COEFF_DECIDABLE = {'f8': 1e-3, 'f4': 2e-2}      # coefficient comparison only when the relative tolerance is below this
 GRAD_TOL = {'f8': 1e-9, 'f4': 5e-5}    # relative normal-equation residual (observed <= 5e-15 / 1.4e-7)
@@ -69,7 +69,10 @@ class C13(Check):
             '10-400 positions (pixel grids with jitter, shuffled, float32), invvar with zeros and/or a 1/0 inmask given as bool, '
             'int8/16/32/64, uint8/16 or float, masked points on the curve or 3..3000 amplitudes off it, then every masked / '
             'zero-weight y changed by 1e6*scale and the set refitted; explicit or data xmin/xmax, '
-            'jump window inside / below / above the x range, both constructors; FITS-style tables (D and E columns) with '
+            'jump window inside / below / above the x range, starting exactly at 0, ending exactly at 0 or at the last pixel, '
+            'xjumpval negative / 1e-9..1e-4 / exactly 0, explicit xmin = 0 with data starting later, maxiter = 0, both '
+            'constructors; float32 and float16 abscissa arrays with m = 8..13 (standing precision class, tolerance '
+            '4*eps*d^2); FITS-style tables (D and E columns) with '
             'random coefficient matrices evaluated at given positions, on the default grid and with ignore_jump, then again '
             'on the same object in another order (jump / ignore_jump alternating, reshaped xpos, first xpos again); default '
             'grids with xmax-xmin exactly integral, within 1e-12..1e-3 of an integer and generic.  Non-trivial: a basis '
@@ -80,7 +83,9 @@ class C13(Check):
                    'matrix condition <= 3e4 (float32: 25; some fit cases up to 3e5, gradient test only) so that normal equations are meaningful',
                    'coefficient tolerance 2000*eps*cond^2*(|c|+|data|/smax) (float32: 200*eps32; calibrated max 12 / 1.1 in these units), compared only when < 1e-3 (2e-2) relative; gradient '
                    'tolerance 1e-9 (float32 5e-5) relative to smax*(smax*|c|+|b|); basis tolerance '
-                   '100*eps*max(d^2, 2d*sum|monomial coefficients|) per order (float32: 100*eps32*d^2)',
+                   '100*eps*max(d^2, 2d*sum|monomial coefficients|) per order for float64; bases returned in float32/float16 '
+                   '(arrays and numpy float32 scalars): 4*eps*max(d^2,1) with eps of that dtype, reference at the stored abscissa '
+                   '(unchanged code measured <= 0.16*d^2*eps, i.e. 25x margin)',
                    'H(x) of the split basis inside trace sets: positions with |xnorm| < 1e-12*(1+max|x|/range) (float32 1e-5*...) are undecided; evaluation tolerances scale with the same amplification',
                    'grid size: xmax-xmin within 64*eps*max(1,|xmin|,|xmax|) of an integer but not exactly integral is undecided',
                    'inmask follows the xy2traceset docstring ("1 for good points and 0 for rejected points", array-like): any bool, '
@@ -96,6 +101,12 @@ class C13(Check):
                          'tset_inmask_bool', 'tset_inmask_signed_int', 'tset_inmask_unsigned_int', 'tset_inmask_float',
                          'tset_masked_points_perturbed', 'tset_masked_by_inmask', 'tset_masked_by_zero_invvar',
                          'tset_masked_outliers', 'repeat_eval_same_object', 'repeat_eval_alternating_jump',
+                         'basis_lowprec_high_order_rows', 'basis_lowprec_high_order_legendre',
+                         'basis_lowprec_high_order_chebyshev', 'basis_lowprec_high_order_poly',
+                         'basis_lowprec_high_order_chebyshev_split', 'basis_rows_float16',
+                         'tset_jump_lo_exactly_zero', 'tset_jump_hi_exactly_zero', 'tset_jump_hi_at_last_pixel',
+                         'tset_jump_val_zero', 'tset_jump_val_tiny', 'tset_jump_val_negative', 'tset_jump_window_outside',
+                         'tset_xmin_explicit_zero', 'table_jump_falsy_value',
                          'table_eval_jump', 'table_eval_ignore_jump', 'table_eval_nojump', 'table_split_step_decided',
                          'grid_decided', 'grid_exact_integer_range', 'grid_fractional_range', 'grid_near_integer_range')
     MIN_NONTRIVIAL = 50
@@ -127,6 +138,7 @@ class C13(Check):
     def budget(self, tier):
         q = tier == 'quick'
         return {'basis': 1200 if q else 12000, 'basis_scalar': 800 if q else 8000, 'basis_int': 160 if q else 1500,
+                'basis_lowprec': 400 if q else 5000,
                 'fit': 2400 if q else 30000, 'fit_exact': 800 if q else 10000, 'fit_f32': 800 if q else 10000,
                 'tset_fit': 900 if q else 10000, 'tset_table': 700 if q else 8000, 'grid': 500 if q else 6000}
 
@@ -143,6 +155,16 @@ class C13(Check):
             if rng.random() < 0.3:
                 x = np.sort(x)
             return {'kind': cls, 'fn': fn, 'm': m, 'dtype': dt, 'x': _lst(x)}
+        if cls == 'basis_lowprec':
+            # standing precision class: single / half precision arrays at the orders where a low-precision algorithm shows
+            fn = FUNCS[i % 4]
+            m = rng.randint(8, 13)
+            dt = 'f2' if rng.random() < 0.3 else 'f4'
+            n = rng.randint(20, 300)
+            x = _mixed_abscissae(g, n)
+            sel = g.uniform(size=n) < 0.5
+            x[sel] = (g.choice([-1.0, 1.0], n) * g.uniform(0.8, 1.0, n))[sel]      # power forms cancel worst near |x| ~ 0.9-1
+            return {'kind': 'basis', 'fn': fn, 'm': m, 'dtype': dt, 'x': _lst(x.astype(DT[dt]))}
         if cls == 'basis_scalar':
             fn = FUNCS[i % 4]
             m = rng.randint(2 if fn == 'chebyshev_split' else 1, 13)
@@ -270,8 +292,13 @@ class C13(Check):
             xpos = self._positions(rng, g, nT, nx, dt)
             x64 = xpos.astype(np.float64)
             dmin, dmax = float(x64.min()), float(x64.max())
-            mm = rng.choice(['data', 'data', 'wider', 'exact'])
-            if mm == 'data':
+            mm = rng.choice(['data', 'data', 'wider', 'exact', 'zero'])
+            if mm == 'zero' and not dmin > 0:
+                mm = 'wider'
+            if mm == 'zero':                       # explicit xmin = 0 (a falsy value) although the data start later
+                xmin, xmax = 0.0, float(np.ceil(dmax))
+                rmin, rmax = xmin, xmax
+            elif mm == 'data':
                 xmin = xmax = None
                 rmin, rmax = dmin, dmax
             elif mm == 'wider':
@@ -286,19 +313,33 @@ class C13(Check):
             if dt == 'f4' and max(abs(rmin), abs(rmax)) / (rmax - rmin) > 10:
                 continue
             jump = None
-            jm = rng.choice(['none', 'none', 'inside', 'inside', 'below', 'above', 'partial'])
+            jm = rng.choice(['none', 'none', 'inside', 'inside', 'below', 'above', 'partial',
+                             'lo_zero', 'lo_zero', 'hi_zero', 'hi_last', 'val_zero', 'val_tiny'])
             if jm != 'none':
                 w = rng.uniform(0.5, 0.3 * (rmax - rmin))
                 val = rng.choice([-1, 1]) * rng.uniform(0.1, 3.0)
+                if jm == 'val_zero':
+                    val = 0.0
+                elif jm == 'val_tiny':
+                    val = rng.choice([-1, 1]) * 10.0 ** rng.uniform(-9, -4)
                 if jm == 'inside':
                     lo_ = rng.uniform(rmin, rmax - w)
                 elif jm == 'below':
                     lo_ = rmin - w - rng.uniform(1, 50)
                 elif jm == 'above':
                     lo_ = rmax + rng.uniform(1, 50)
-                else:
+                elif jm == 'partial':
                     lo_ = rmin - w / 2
+                else:
+                    lo_ = rng.uniform(rmin, rmax - w)
                 jump = [float(np.float32(lo_)), float(np.float32(lo_)) + float(np.float32(w)), float(np.float32(val))]
+                # boundary / falsy option values: window starting exactly at pixel 0, ending exactly at 0, ending at the last pixel
+                if jm == 'lo_zero':
+                    jump[0], jump[1] = 0.0, float(np.float32(w))
+                elif jm == 'hi_zero':
+                    jump[0], jump[1] = -float(np.float32(w)), 0.0
+                elif jm == 'hi_last':
+                    jump[0], jump[1] = rmax - float(np.float32(w)), rmax
                 if not jump[1] > jump[0]:
                     continue
             iv = None
@@ -348,7 +389,7 @@ class C13(Check):
             return {'kind': 'tset_fit', 'dtype': dt, 'func': func, 'nc': nc, 'xpos': [_lst(r) for r in xpos],
                     'ypos': [_lst(r) for r in ypos], 'invvar': None if iv is None else [_lst(r) for r in iv],
                     'inmask': None if inmask is None else inmask.tolist(), 'mask_dtype': mask_dtype, 'outliers': outliers,
-                    'pseed': rng.getrandbits(32), 'xmin': xmin, 'xmax': xmax, 'jump': jump,
+                    'pseed': rng.getrandbits(32), 'xmin': xmin, 'xmax': xmax, 'jump': jump, 'jkind': jm, 'mmkind': mm,
                     'maxiter': rng.choice([None, None, 0, 3, 20]), 'via': rng.choice(['xy2traceset', 'TraceSet']),
                     'defaults': rng.random() < 0.5, 'minmax_int': rng.random() < 0.5, 'layout': rng.choice(['C', 'C', 'F'])}
         return None
@@ -383,19 +424,28 @@ class C13(Check):
         if fmt == 'E':
             coeff = coeff.astype(np.float32)
         jump = None
-        jm = rng.choice(['none', 'inside', 'inside', 'below', 'above', 'partial'])
+        jm = rng.choice(['none', 'inside', 'inside', 'below', 'above', 'partial', 'lo_zero', 'hi_zero', 'hi_last', 'val_zero',
+                         'val_tiny'])
         if jm != 'none':
             rng_ = xmax - xmin
             w = rng.uniform(0.3, max(0.4, 0.3 * rng_))
             val = rng.choice([-1, 1]) * rng.uniform(0.1, 3.0)
-            lo_ = {'inside': rng.uniform(xmin, max(xmin, xmax - w)), 'below': xmin - w - rng.uniform(1, 50),
-                   'above': xmax + rng.uniform(1, 50), 'partial': xmin - w / 2}[jm]
+            if jm == 'val_zero':
+                val = 0.0
+            elif jm == 'val_tiny':
+                val = rng.choice([-1, 1]) * 10.0 ** rng.uniform(-9, -4)
+            lo_ = {'below': xmin - w - rng.uniform(1, 50), 'above': xmax + rng.uniform(1, 50), 'partial': xmin - w / 2,
+                   'lo_zero': 0.0, 'hi_zero': -w, 'hi_last': xmax - w}.get(jm, rng.uniform(xmin, max(xmin, xmax - w)))
             lo32 = float(np.float32(lo_))
             hi32 = float(np.float32(lo_ + w))
+            if jm == 'hi_zero':
+                hi32 = 0.0
+            elif jm == 'hi_last':
+                hi32 = float(np.float32(xmax))
             if hi32 > lo32:
                 jump = [lo32, hi32, float(np.float32(val))]
         case = {'kind': 'grid' if grid else 'tset_table', 'func': func, 'fmt': fmt, 'xmin': xmin, 'xmax': xmax,
-                'coeff': [_lst(r) for r in coeff], 'jump': jump, 'jfmt': rng.choice(['E', 'E', 'D']), 'near': near}
+                'coeff': [_lst(r) for r in coeff], 'jump': jump, 'jkind': jm, 'jfmt': rng.choice(['E', 'E', 'D']), 'near': near}
         if not grid:
             nx = rng.randint(1, 60)
             xd = 'f4' if rng.random() < 0.25 else 'f8'
@@ -434,7 +484,7 @@ class C13(Check):
             raise KeyError(k)
 
     # -- bases
-    def _compare_basis(self, out, fn, m, got, xref, eps, power_form, clause, **detail):
+    def _compare_basis(self, out, fn, m, got, xref, eps, power_form, clause, lowprec=False, **detail):
         ref = R.basis(fn, xref, m)
         if not out.expect(isinstance(got, np.ndarray) and got.shape == ref.shape, clause,
                           'shape %r, expected %r' % (getattr(got, 'shape', None), ref.shape), **detail):
@@ -442,7 +492,8 @@ class C13(Check):
         ok = True
         worst = 0.0
         for k in range(m):
-            tol = R.basis_tol(fn, k, eps, power_form)
+            tol = R.basis_tol_lowprec(k - 1 if (R.CANON[fn] == 'chebyshev_split' and k > 1) else k, eps) if lowprec \
+                else R.basis_tol(fn, k, eps, power_form)
             dev = float(np.abs(got[k].astype(np.float64) - ref[k]).max()) if ref.shape[1] else 0.0
             worst = max(worst, dev / tol)
             if not out.expect(dev <= tol, clause, 'row %d of %s(x, %d) deviates from the textbook %s by %.3g (tolerance %.3g)'
@@ -457,9 +508,15 @@ class C13(Check):
         fn, m, dt = case['fn'], case['m'], case['dtype']
         x = np.array(case['x'], dtype=DT[dt])
         got = self.basis_func(fn)(x.copy(), m)
-        self._compare_basis(out, fn, m, got, x, EPS[dt], dt == 'f8', 'basis', x=x)
+        self._compare_basis(out, fn, m, got, x, EPS[dt], dt == 'f8', 'basis' if dt == 'f8' else 'basis-low-precision',
+                            lowprec=dt != 'f8', x=x, dtype=dt)
         if dt == 'f4':
             out.count('basis_rows_float32', m)
+        if dt != 'f8' and m >= 9:
+            out.count('basis_lowprec_high_order_rows', m - 8)
+            out.count('basis_lowprec_high_order_' + R.CANON[fn])
+        if dt == 'f2':
+            out.count('basis_rows_float16', m)
         if np.any(np.abs(x) == 1):
             out.count('basis_abscissa_at_pm1')
         out.nontrivial = m >= 3 and x.size >= 1
@@ -470,7 +527,7 @@ class C13(Check):
         x = {'pyfloat': float, 'pyint': int, 'np64': np.float64, 'np32': np.float32, 'arr0d': np.array}[st](v)
         got = self.basis_func(fn)(x, m)
         eps = R.EPS32 if st == 'np32' else R.EPS64
-        self._compare_basis(out, fn, m, got, float(v), eps, st != 'np32', 'basis-scalar', x=v, stype=st)
+        self._compare_basis(out, fn, m, got, float(v), eps, st != 'np32', 'basis-scalar', lowprec=st == 'np32', x=v, stype=st)
         out.count('scalar_abscissae')
         out.count('scalar_' + st)
         out.nontrivial = m >= 3
@@ -818,6 +875,23 @@ class C13(Check):
                 out.count('tset_roundtrip_float32', nT)
             if jump is not None and xmin < jump[0] and jump[1] < xmax:
                 out.count('tset_jump_window_inside')
+            if jump is not None:
+                if jump[0] == 0.0:
+                    out.count('tset_jump_lo_exactly_zero')
+                if jump[1] == 0.0:
+                    out.count('tset_jump_hi_exactly_zero')
+                if jump[1] == xmax:
+                    out.count('tset_jump_hi_at_last_pixel')
+                if jump[2] == 0.0:
+                    out.count('tset_jump_val_zero')
+                elif abs(jump[2]) < 1e-3:
+                    out.count('tset_jump_val_tiny')
+                if jump[2] < 0:
+                    out.count('tset_jump_val_negative')
+                if jump[1] <= xmin or jump[0] >= xmax:
+                    out.count('tset_jump_window_outside')
+            if case['xmin'] is not None and float(case['xmin']) == 0.0 and float(x64.min()) > 0:
+                out.count('tset_xmin_explicit_zero')
         # masked (inmask == 0) and zero-weight (invvar == 0) points have no influence: change their y hugely, refit
         masked = w == 0
         if masked.any():
@@ -901,6 +975,8 @@ class C13(Check):
                                                                    tset.has_jump, tset.func),))
         eps_range = R.EPS64 if case['fmt'] == 'D' else R.EPS32
         jeps = R.EPS32 if case.get('jfmt', 'E') == 'E' else R.EPS64
+        if jump is not None and (jump[0] == 0.0 or jump[1] == 0.0 or jump[2] == 0.0):
+            out.count('table_jump_falsy_value')
         self._check_grid(out, tset, func, coeff, xmin, xmax, jump, eps_range, SPLIT_BAND['f8'], jump_eps=jeps)
         if jump is not None:
             self._check_grid(out, tset, func, coeff, xmin, xmax, jump, eps_range, SPLIT_BAND['f8'], ignore_jump=True)
